@@ -242,10 +242,27 @@ impl SubCheck for LeapNoPanic {
         "leap_operands_no_panic"
     }
     fn rule(&self) -> &'static str {
-        "case = (date inside the 64-bit window, leap-second time, span, digits); the statement does not define epoch-relative multiples for leap-second operands, so only: no panic, valid values, sub-second rounding idempotent; every case has a leap operand (non-trivial)"
+        "case = (date inside the 64-bit window, leap-second time incl. exact ties for the digit count and the last unit of the second, span, digits); duration_*: the statement does not define epoch-relative multiples for leap-second operands, so only no panic, valid values, and the DateTime route agreeing with the NaiveDateTime route on the same wall clock; round_subsecs / trunc_subsecs: nearest (ties up) / lower multiple of the sub-second part within the leap second, carrying into the next second; every case has a leap operand (non-trivial)"
     }
     fn strategy(&self) -> Option<BoxedStrategy<Self::Case>> {
-        Some((-100_000i64..100_000, (0u32..1440).prop_map(|m| m * 60 + 59), 1_000_000_000u32..2_000_000_000, span_strategy(1_000_000_007), 0u16..12).prop_map(|(z, secs, frac, span, dg)| (z, T { secs, frac }, span, dg)).boxed())
+        Some(
+            (-100_000i64..100_000, (0u32..1440).prop_map(|m| m * 60 + 59), 1_000_000_000u32..2_000_000_000, span_strategy(1_000_000_007), 0u16..12, 0u8..6, any::<u32>())
+                .prop_map(|(z, secs, raw, span, dg, mode, k)| {
+                    // fractions that are exact ties for the digit count, in particular in the last unit of the
+                    // leap second (where rounding up carries out of it)
+                    let unit: u64 = 10u64.pow(9 - (dg as u32).min(9));
+                    let frac = match mode {
+                        0 => 1_000_000_000 + ((k as u64 % (1_000_000_000 / unit)) * unit + unit / 2) % 1_000_000_000,
+                        1 => 2_000_000_000 - unit / 2,
+                        2 => 2_000_000_000 - unit / 2 - 1,
+                        3 => (2_000_000_000 - unit / 2 + 1).min(1_999_999_999),
+                        _ => raw as u64,
+                    }
+                    .clamp(1_000_000_000, 1_999_999_999) as u32;
+                    (z, T { secs, frac }, span, dg)
+                })
+                .boxed(),
+        )
     }
     fn check(&self, &(z, t, span, digits): &Self::Case, obs: &mut Obs) -> Result<(), String> {
         obs.nt("leap_operand");
@@ -280,7 +297,27 @@ impl SubCheck for LeapNoPanic {
                 (x, y) => return Err(format!("{name}({td:?}) on wall clock {n:?} at offset {off}: NaiveDateTime route gives {x:?}, DateTime route gives {:?}", y.map(|v| v.naive_local()))),
             }
         }
-        // within the second the multiples are defined: sub-second rounding is idempotent
+        // within the second the multiples are defined: the sub-second part (counted from the start of the
+        // leap second) goes to the nearest / the lower multiple, ties up, carrying into the next second
+        {
+            let unit: i64 = 10i64.pow(9 - (digits as u32).min(9));
+            let f = t.frac as i64 - 1_000_000_000;
+            let down = f - f % unit;
+            let up = down + unit;
+            let rounded = if f % unit == 0 { f } else if up - f <= f - down { up } else { down };
+            obs.nt_if(f % unit != 0 && up - f == f - down, "exact_tie");
+            obs.nt_if(rounded == 1_000_000_000, "carries_out_of_the_leap_second");
+            let exp_r = if rounded < 1_000_000_000 {
+                conv::date(z).and_time(T { secs: t.secs, frac: (rounded + 1_000_000_000) as u32 }.build()?)
+            } else {
+                conv::date(z).and_time(T { secs: t.secs, frac: 0 }.build()?) + chrono::TimeDelta::seconds(1)
+            };
+            ensure_eq!(call("round_subsecs on a leap second", || n.round_subsecs(digits))?, exp_r, "round_subsecs({digits}) of leap reading {t:?}");
+            let exp_t = conv::date(z).and_time(T { secs: t.secs, frac: (down + 1_000_000_000) as u32 }.build()?);
+            ensure_eq!(call("trunc_subsecs on a leap second", || n.trunc_subsecs(digits))?, exp_t, "trunc_subsecs({digits}) of leap reading {t:?}");
+            ensure_eq!(call("NaiveTime::round_subsecs", || n.time().round_subsecs(digits))?, exp_r.time(), "NaiveTime::round_subsecs({digits}) of leap reading {t:?}");
+            ensure_eq!(call("DateTime::round_subsecs", || n.and_utc().round_subsecs(digits))?.naive_utc(), exp_r, "DateTime::round_subsecs({digits}) of leap reading {t:?}");
+        }
         let r = call("round_subsecs on a leap second", || n.round_subsecs(digits))?;
         ensure_eq!(call("round_subsecs", || r.round_subsecs(digits))?, r, "round_subsecs idempotent on leap operand");
         let tr = call("trunc_subsecs on a leap second", || n.trunc_subsecs(digits))?;
